@@ -254,6 +254,20 @@ def guarded_ps(fn, site_bb, good_edges):
     return False
 
 
+def contradicted_edges(t, b, keep):
+    """edges (b, target) of switch terminator t that cannot be taken when the discriminant is one of `keep`: a target shared with a kept
+    value (several variants matched by one arm) stays"""
+    listed = dict((v, tgt) for (v, tgt) in t["targets"])
+    kept_targets = set(listed.get(v, t["otherwise"]) for v in keep)
+    out = []
+    for (v, tgt) in t["targets"]:
+        if v not in keep and tgt not in kept_targets:
+            out.append((b, tgt))
+    if all(v in listed for v in keep) and t["otherwise"] not in kept_targets:
+        out.append((b, t["otherwise"]))
+    return out
+
+
 def option_valuation_edges(fn, val):
     """A6: CFG edges of fn contradicted by a Some/None valuation {param_idx: True(Some)|False(None)} of its Option parameters
     (discriminant switches on the parameter and is_some()/is_none() tests)"""
@@ -263,12 +277,7 @@ def option_valuation_edges(fn, val):
         if s.kind == "param" and s.d["idx"] in val:
             want = 1 if val[s.d["idx"]] else 0
             t = fn.term(b)
-            listed = set(v for (v, _) in t["targets"])
-            for (v, tgt) in t["targets"]:
-                if v != want:
-                    removed.append((b, tgt))
-            if want in listed:
-                removed.append((b, t["otherwise"]))
+            removed.extend(contradicted_edges(t, b, (want,)))
     for (b, tt, ft, c) in bool_switches(fn):
         if c.kind == "call" and c.kids and c.d["term"].get("name") in ("is_some", "is_none"):
             s = peel(c.kids[0])
